@@ -7,6 +7,6 @@ export CARGO_NET_OFFLINE=true
 mkdir -p out evidence replay/cases
 [ -f kani/Cargo.lock ] || cp /repo/Cargo.lock kani/Cargo.lock
 [ -f replay/Cargo.lock ] || cp /repo/Cargo.lock replay/Cargo.lock
-(cd kani && cargo kani --only-codegen -Z unstable-options -Z stubbing --no-assertion-reach-checks >../out/setup-kani.log 2>&1) || { tail -50 out/setup-kani.log; exit 1; }
+(cd kani && cargo kani --only-codegen --harness c19::c19_transaction_id_mask --exact -Z unstable-options -Z stubbing --no-assertion-reach-checks >../out/setup-kani.log 2>&1) || { tail -50 out/setup-kani.log; exit 1; }
 (cd replay && RUSTC_WRAPPER="$PWD/rustc-wrapper.sh" cargo test --no-run >../out/setup-replay.log 2>&1 && RUSTC_WRAPPER="$PWD/rustc-wrapper.sh" cargo test --release --no-run >>../out/setup-replay.log 2>&1) || { tail -50 out/setup-replay.log; exit 1; }
 echo setup ok
